@@ -246,8 +246,10 @@ def w_programs(ctx, rng, i):
 def w_compare(ctx, rng, i):
     n = int(rng.choice([1, 2, 3, 7, 16, 101, 1024]))
     kind = ["nonneg_real", "nonneg_real_noise", "real_any", "complex"][i % 4]
-    thr_form = ["scalar", "npscalar", "list", "array", "esignal", "len1"][int(rng.integers(6))]
+    thr_form = ["scalar", "npscalar", "list", "array", "esignal", "len1", "int", "npint", "int_array", "tuple"][int(rng.integers(10))]
     scale = float(10 ** rng.uniform(-3, 2)) if i % 5 else float(10 ** rng.uniform(-12, -6))     # down to nA/pA-scale photocurrents
+    if thr_form in ("int", "npint", "int_array"):          # integer thresholds (x > 0, x > 1 ... are the everyday forms): volt-scale signals
+        scale = float(rng.choice([1.0, 3.0, 10.0]))
     noise = None
     if kind == "nonneg_real":
         sig = np.abs(rng.normal(0, 1, n)) * scale
@@ -262,7 +264,7 @@ def w_compare(ctx, rng, i):
         noise = (rng.normal(0, 1, n) + 1j * rng.normal(0, 1, n)) * scale * 0.2 if rng.integers(2) else None
     x = T.electrical_signal(sig, noise)
     tot = sig + (noise if noise is not None else 0)
-    tv = np.abs(rng.normal(0, 1, n)) * scale if thr_form in ("list", "array", "esignal") else np.array([abs(rng.normal(0.7, 0.5)) * scale])
+    tv = np.abs(rng.normal(0, 1, n)) * scale if thr_form in ("list", "array", "esignal", "tuple", "int_array") else np.array([abs(rng.normal(0.7, 0.5)) * scale])
     if i % 7 == 0 and n > 1:   # thresholds exactly on sample values (ties)
         tv = np.abs(tot).copy() if tv.size == n else np.array([float(np.abs(tot)[0])])
     elif i % 7 == 3:           # thresholds a few ppm / a few ulp away from sample values (near ties)
@@ -270,7 +272,10 @@ def w_compare(ctx, rng, i):
         tv = np.abs(tot) * (1 + eps) if tv.size == n else np.array([float(np.abs(tot)[n // 2]) * (1 + eps)])
     elif i % 7 == 5 and tv.size == 1:
         tv = np.array([0.0])   # compare with zero
-    th = {"scalar": float(tv[0]), "npscalar": np.float64(tv[0]), "list": tv.tolist(), "array": tv, "esignal": T.electrical_signal(tv), "len1": [float(tv[0])]}[thr_form]
+    if thr_form in ("int", "npint", "int_array"):
+        tv = np.round(tv)      # after the tie / near-tie adjustments: the oracle and the operand carry the same integers
+    th = {"scalar": lambda: float(tv[0]), "npscalar": lambda: np.float64(tv[0]), "list": lambda: tv.tolist(), "array": lambda: tv, "esignal": lambda: T.electrical_signal(tv), "len1": lambda: [float(tv[0])],
+          "int": lambda: int(tv[0]), "npint": lambda: np.int64(tv[0]), "int_array": lambda: tv.astype(int), "tuple": lambda: tuple(tv.tolist())}[thr_form]()
     ctx.describe(kind=kind, n=n, thr_form=thr_form, scale=scale)
     d0 = core.digest(x.signal, x.noise)
     with core.quiet(), core.readonly(x.signal, x.noise, tv):
